@@ -5,7 +5,9 @@ import itertools, json, os
 from vf import core
 
 LOCALAS = 65000
-SEGS = ["()", "((2 (%d)))", "((2 (%d 7)))", "((2 (%d)) (1 (8 9)))", "((3 (64999)) (2 (%d)))", "((1 (%d 5)))", "((2 (%d 7 7)))"]
+SEGS = ["()", "((2 (%d)))", "((2 (%d 7)))", "((2 (%d)) (1 (8 9)))", "((3 (64999)) (2 (%d)))", "((1 (%d 5)))", "((2 (%d 7 7)))",
+        # AS_PATHs of confederation segments only: length 0 and no neighbouring AS, yet not empty
+        "((3 (64999)))", "((3 (64998 64999)))", "((4 (64998 64999)))", "((3 (64999)) (4 (64997)))"]
 
 
 def mk_source(rng, kind, addr, idpool):
@@ -25,7 +27,7 @@ def mk_attrs(rng, src, prof):
     firstas = src[0] if src[0] else 65010
     if prof["same_first_as"] and src[4] is not None:
         firstas = 65001
-    seg = rng.choice(SEGS[:prof["nseg"]])
+    seg = rng.choice([SEGS[i] for i in prof["segs"]] if "segs" in prof else SEGS[:prof["nseg"]])
     segs = seg % firstas if "%d" in seg else seg
     if src[4] is None and rng.random() < 0.7:
         segs = "()"
@@ -125,6 +127,9 @@ PROFILES = [
     dict(p_llgr=0.3, p_nhinv=0.2, lps=[100, 50, 200], nseg=7, origins=[0, 1, 2], meds=[0, 10, 20], tss=[5, 5, 6, 7], same_first_as=False),
     dict(p_llgr=0.4, p_nhinv=0.0, lps=[100, 90], nseg=3, origins=[0], meds=[0, 5], tss=[5], same_first_as=True),
     dict(p_llgr=0.0, p_nhinv=0.3, lps=[100], nseg=3, origins=[0, 2], meds=[0], tss=[1, 2, 3, 4], same_first_as=False),
+    # MED among routes whose AS_PATH length is 0: empty paths and confederation-only paths
+    dict(p_llgr=0.0, p_nhinv=0.0, lps=[100], segs=[0, 0, 7, 8, 9, 10], origins=[0], meds=[0, 10, 20], tss=[5, 6, 7], same_first_as=False),
+    dict(p_llgr=0.1, p_nhinv=0.0, lps=[100, 200], segs=[0, 1, 4, 7, 8, 9, 10], origins=[0, 1], meds=[0, 10], tss=[5, 6], same_first_as=True),
 ]
 
 
